@@ -8,6 +8,7 @@ from ..facts import callee, op_place, strip_generics
 from ..flow import Defs, backward_slice, slice_calls, slice_consts, slice_strs
 
 LEVEL = 'other'
+TECHNIQUE = 'static analysis: layer provenance of the Figment handed to extract() (helpers inlined, array-loop merges expanded, statics resolved), dominance of ignore()/merges, case evaluation of failure propagation, derive-macro template sources on proc-macro MIR'
 CLAUSE = ('ConfigLoader::load extracts from Figment::new().merge(Yaml base.yml).merge(Yaml <profile>.yml).merge(Env PX_ split __ ignoring '
           'PROFILE) — exactly these three merges in this order, no join/adjoin/admerge, the ignore filter on every path, and both the '
           'profile lookup and the extraction propagate their failure as ConfigLoadError; the derive macro uses one string per variant for '
